@@ -603,6 +603,44 @@ func c02History(c *fw.Ctx, idx int) {
 			forcePush = 4
 		default:
 			hist = append(hist, name+".sweep")
+			if kind != model.Collection && r.Bool() {
+				// the caller keeps and fills an *empty* part it was handed by an accessor
+				// (an empty part has no coordinates to view, so the accessor hands out an
+				// object of its own): the geometry it came from, and every later accessor
+				// call on either geometry, must still show an empty part there
+				var empties []int
+				for i := 0; i < cur.numParts(); i++ {
+					if cur.partModel(i).IsEmpty() {
+						empties = append(empties, i)
+					}
+				}
+				if len(empties) > 0 {
+					i := empties[r.Intn(len(empties))]
+					np := c02Part(r, kind, cur.m.Layout)
+					for try := 0; try < 8 && np.IsEmpty(); try++ {
+						np = c02Part(r, kind, cur.m.Layout)
+					}
+					if !np.IsEmpty() {
+						hist[len(hist)-1] = fmt.Sprintf("SetCoords(%[3]s) on the empty part %[1]d handed out by %[2]s's accessor", i, name, np)
+						setIn()
+						var err error
+						if c.Guard("panic", func() {
+							// SetCoords only: it gives the part storage of its own.  Push onto
+							// the part is not driven - a polygon made of empty rings is handed
+							// out as a zero-length *view*, and appending to a view writes into
+							// the geometry it views, as it does for non-empty parts, by design
+							err = setCoordsOn(cur.partGeom(i), np)
+						}) {
+							return
+						}
+						if err != nil {
+							c.Fail("setcoords-error", "filling an empty part object failed: %v", err)
+							return
+						}
+						c.Count("op_fill_empty_part_from_accessor")
+					}
+				}
+			}
 			setIn()
 		}
 		if !cur.sweep(c, "after "+hist[len(hist)-1]) {
